@@ -87,7 +87,7 @@ def wid3(ctx, c):
             c.check(all(cl.args or cl.keywords for cl in calls), "hex:width-passed", "hex passes its width to get_negative", "get_negative() called without the width",
                     "NumericValue.hex renders a negative value without telling get_negative the field width", repo.loc(hx, hx.node))
     # parse-time limits in __init__: per literal kind, fold the raising tests at boundary magnitudes
-    init = repo.method(NV, "__init__", inherited=False)
+    init = repo.method(NV, "__init__")
     wi = repo.loc(init, init.node)
     from ..inline import flatten
     import copy
@@ -231,7 +231,7 @@ def wid5(ctx, c):
         c.check(not miss and not extra, name, "accepts/rejects the reference samples", "rejects %s, accepts %s" % (miss, extra),
                 "%s = %r rejects %s and accepts %s" % (name, p, miss, extra), "%s:%d" % (mod.rel, node.lineno))
     c.floor("literal patterns", len(pats), 4)
-    init = repo.method(NV, "__init__", inherited=False)
+    init = repo.method(NV, "__init__")
     from ..inline import flatten
     body = body_without_doc(flatten(repo, init, depth=2))
     cur = None
@@ -274,7 +274,15 @@ def wid1(ctx, c):
                 # path count explodes through the register arms; the return is unconditional at the end
                 rets = [x for x in ast.walk(fn.node) if isinstance(x, ast.Return)]
                 tmp = ast.parse("def f(self):\n    pass").body[0]
-                tmp.body = [rets[-1]]
+                # ... together with the straight-line assignments of the function body that the return reads (size = ..., post = NumericValue(...))
+                need_ = {x.id for x in ast.walk(rets[-1]) if isinstance(x, ast.Name)}
+                pre_ = []
+                for st_ in reversed(body_without_doc(fn.node)):
+                    if isinstance(st_, ast.Assign) and len(st_.targets) == 1 and isinstance(st_.targets[0], ast.Name) and st_.targets[0].id in need_ \
+                            and not any(isinstance(x, ast.Call) and U(x.func).startswith("self.") for x in ast.walk(st_.value)):
+                        pre_.insert(0, st_)
+                        need_ |= {x.id for x in ast.walk(st_.value) if isinstance(x, ast.Name)}
+                tmp.body = pre_ + [rets[-1]]
                 outs = Interp(tmp, sym_attrs=("_sz",)).run()
             else:
                 outs = Interp(fn.node, sym_attrs=("_sz",)).run()
@@ -298,6 +306,9 @@ def wid1(ctx, c):
             seen.add(fact)
             site = "%s.translate" % cls
             good = isinstance(sz, Lin) and sz.terms == {md + "_sz": 1} and sz.c == 0
+            if not isinstance(sz, (Lin, Const)):
+                c.undecided(site + ":size", "size-not-expressed-through-the-table", repr(sz)[:60], where)
+                continue
             c.check(good, site + ":size", "size = mode.%s_sz" % md, "size = %r" % sz, "%s.translate reports size %r, the table column is mode.%s_sz" % (cls, sz, md), where)
             goodm = repr(mx) == repr(sz)
             c.check(goodm, site + ":max_size", "max_size = size", "max_size = %r, size = %r" % (mx, sz), "%s.translate reports max_size %r != size %r" % (cls, mx, sz), where)
@@ -350,7 +361,7 @@ def wid1(ctx, c):
     # WID-4: hex() can be longer than hex_len()
     hx = repo.method(NV, "hex", inherited=False)
     hl = repo.method(NV, "hex_len", inherited=False)
-    init = repo.method(NV, "__init__", inherited=False)
+    init = repo.method(NV, "__init__")
     guard = False
     for f in (hx, init):
         for node in ast.walk(f.node):
@@ -504,12 +515,13 @@ def fold_constructor(ctx, cls, args):
     from ..consteval import fold_body, Raised
     repo = ctx.repo
     def build():
-        init = repo.method(cls, "__init__", inherited=False)
+        init = repo.method(cls, "__init__")          # the class's own constructor, or the one it inherits
         return init, body_without_doc(flatten(repo, init, depth=2))
     init, body = ctx.memo(("flat-init", cls), build)
     params = [p for p in init.params if p != "self"]
     defaults = init.node.args.defaults
     env = dict(ctx.env)
+    env.update(ctx.self_env(cls))                     # class constants as the instance sees them (self.WIDTH of the concrete class)
     for p_, d_ in zip(params[len(params) - len(defaults):], defaults):
         env[p_] = fold(d_, ctx.env)
     env.update(args)
@@ -517,7 +529,8 @@ def fold_constructor(ctx, cls, args):
         final = {}
         if isinstance(st, ast.Expr) and isinstance(st.value, ast.Call) and U(st.value.func) in ("super().__init__", "Value.__init__", "super(%s, self).__init__" % cls):
             call = st.value
-            bases = [b for b in repo.ancestors(cls) if b in repo.classes and "__init__" in repo.cls(b).methods and b != cls]
+            owner = init.cls.name if init.cls is not None else cls
+            bases = [b for b in repo.ancestors(owner) if b in repo.classes and "__init__" in repo.cls(b).methods and b != owner]
             if not bases:
                 raise NotConst("no base constructor")
             sub = fold_constructor_env(ctx, bases[0], call, env)
@@ -534,7 +547,7 @@ def fold_constructor(ctx, cls, args):
 
 def fold_constructor_env(ctx, base, call, env):
     repo = ctx.repo
-    init = repo.method(base, "__init__", inherited=False)
+    init = repo.method(base, "__init__")
     params = [p for p in init.params if p != "self"]
     args = {}
     pos = call.args[1:] if U(call.func).startswith("Value.") else call.args
@@ -551,7 +564,7 @@ def wid8(ctx, c):
     magnitude and sign, a prefix is never overridden by the spelling, a width hint given by the instruction is kept."""
     from ..consteval import Raised
     repo = ctx.repo
-    init = repo.method(NV, "__init__", inherited=False)
+    init = repo.method(NV, "__init__")
     where = repo.loc(init, init.node)
     env = ctx.env
     need = ["NONE", "DIRECT", "EXTENDED", "IMMEDIATE", "EXPLICIT_DIRECT", "EXPLICIT_EXTENDED"]
@@ -675,6 +688,7 @@ def fold_method(ctx, cls, name, selfenv, args=(), kwargs=None, depth=0):
     fn = repo.method(cls, name)
     params = [p for p in fn.params if p != "self"]
     env = dict(ctx.env)
+    env.update(ctx.self_env(cls))
     env.update(selfenv)
     defaults = fn.node.args.defaults
     for p_, d_ in zip(params[len(params) - len(defaults):], defaults):
@@ -810,7 +824,7 @@ def wid10_constructed(ctx, c):
     constructor folded for the value, then the two accessors folded on the resulting state"""
     from ..consteval import Raised
     repo = ctx.repo
-    init = repo.method(NV, "__init__", inherited=False)
+    init = repo.method(NV, "__init__")
     where = repo.loc(init, init.node)
     bad, und = None, None
     n = 0
